@@ -18,6 +18,7 @@ type lineLimitReader struct {
 	curLineLength int
 	tripped       bool  // ErrTooLongLine has been returned
 	err           error // the underlying Reader has failed: the stream is over
+	last          byte  // the last octet read from the underlying Reader
 }
 
 func (r *lineLimitReader) Read(b []byte) (int, error) {
@@ -35,6 +36,9 @@ func (r *lineLimitReader) Read(b []byte) (int, error) {
 	}
 
 	n, err := r.R.Read(b)
+	if n > 0 {
+		r.last = b[n-1]
+	}
 	if err != nil {
 		r.err = err
 		return n, err
